@@ -103,7 +103,7 @@ def differs(a, b):
 class Verdict:
     def __init__(s): s.status = 'holds'; s.queries = 0; s.sat = 0; s.unsat = 0; s.unknown = 0; s.time = 0.0; s.cex = None; s.why = None
 
-def decide(impl_pc, impl_outcome, ref_cases, verdict, timeout_ms=20000, on_sat=None):
+def decide(impl_pc, impl_outcome, ref_cases, verdict, timeout_ms=20000, on_sat=None, ground=None):
     """for one implementation path: is there an input on this path for which the reference outcome differs?
     One query: pc /\ OR_i (refcond_i /\ outcome differs from refoutcome_i)."""
     disj = []; which = []
@@ -122,6 +122,9 @@ def decide(impl_pc, impl_outcome, ref_cases, verdict, timeout_ms=20000, on_sat=N
         verdict.sat += 1
         if verdict.status != 'violated':
             m = sol.model()
+            if ground is not None:
+                m2 = ground(sol, m)           # refine the model so that uninterpreted hashes take their real values on the counterexample's inputs
+                if m2 is not None: m = m2
             ro = None
             for dj, (rpc, ro_) in zip(disj, which):
                 if z3.is_true(m.eval(dj, model_completion=True)): ro = ro_; break
